@@ -6,7 +6,7 @@
                           the extend-by-metronome branch is allowed in its REPLACE sub-branch (gap < 1 measure). *)
 From Coq Require Import ZArith QArith Qround Qabs List Bool.
 From RV Require Import Base.PyNum Timing.Snapper Timing.Snap Timing.TimingMap Timing.Integrate Timing.Reseat Timing.ReseatSpec
-  Timing.ReseatDomain Proofs.ReseatProofs.
+  Timing.ReseatDomain Proofs.ReseatProofs Proofs.ReseatTiesProofs.
 Import ListNotations.
 Open Scope Q_scope.
 
@@ -73,6 +73,85 @@ Theorem C11_gap_below_threshold_refuted_unseated :
   exists r, reseat w_gap_unseated = ROk r /\ ~ SeatedP r.
 Proof. exact reseat_gap_below_threshold_refuted_unseated. Qed.
 
+(* ------------------------------------------------------------------ lists with TIES (two or more changes on one position)
+   Domain wf_ties: as wf_unseated, positions only NON-decreasing (wf_unseated l -> wf_ties l).  Same guards: the beat
+   distance of a tie is 0, which is in no extend window - a zero-length gap takes no branch of the loop.
+   Timeline semantics: `timeline 0 l` lists the changes in list order with their times, tied changes being consecutive
+   entries with one time; the change in force at time x is the LAST entry with time <= x (active_at). *)
+Theorem C11_wf_unseated_ties : forall l, wf_unseated l = true -> wf_ties l = true.
+Proof. exact wf_unseated_ties. Qed.
+
+(* T1. termination on all of wf_ties (faulty extend branches included) *)
+Theorem C11_reseat_terminates_ties : forall l, wf_ties l = true -> reseat l <> RFuel.
+Proof. exact reseat_terminates_ties. Qed.
+Theorem C11_reseat_terminates_ties_thr : forall thr l, 0 <= thr -> thr <= 1 # 2 -> wf_ties l = true -> reseat_with thr l <> RFuel.
+Proof. exact reseat_terminates_ties_thr. Qed.
+Theorem C11_reseat_terminates_ties_any_order : forall l, wf_ties (sort_by bcs_lt l) = true -> reseat l <> RFuel.
+Proof. exact reseat_terminates_ties_any_order. Qed.
+
+(* T2. under the guard the result exists and ReseatTiesOK holds = measure lines + timeline refinement (every original
+   entry matched IN ORDER by a result entry at its time, a tie by two adjacent entries)  /\  reseat_tiesb = true
+   /\  reseat_specb_ties = true  /\  ReseatTiesP: SeatedWeakP (measure lines, measures non-decreasing from 0), MeasTiesP
+   (measure stays iff time stays, only across a tie of the input: strictly increasing otherwise), TimesKeptP, TiePairP,
+   OneExtraP, BpmKeptP, ElapsedP, ActiveLastP, FixpointTiesP, result times non-decreasing *)
+Theorem C11_reseat_ties_correct_guarded : forall l, wf_ties l = true -> reseat_guard THRESHOLD l = true ->
+  exists r, reseat l = ROk r /\ ReseatTiesOK l r.
+Proof. exact reseat_ties_correct_guarded. Qed.
+Theorem C11_reseat_ties_correct_no_extend : forall l, wf_ties l = true -> no_extend THRESHOLD l = true ->
+  exists r, reseat l = ROk r /\ ReseatTiesOK l r.
+Proof. exact reseat_ties_correct_no_extend. Qed.
+Theorem C11_reseat_ties_correct_thr : forall thr l, 0 <= thr -> wf_ties l = true -> reseat_guard thr l = true ->
+  exists r, reseat_with thr l = ROk r /\ ReseatTiesOK l r.
+Proof. exact reseat_ties_correct_thr. Qed.
+(* what the runner checks for a CReseatTie case, as a theorem about the model: input in any order (stable sort) *)
+Theorem C11_reseat_ties_correct_any_order : forall l, let ls := sort_by bcs_lt l in
+  wf_ties ls = true -> reseat_guard THRESHOLD ls = true ->
+  exists r, reseat l = ROk r /\ ReseatTiesOK ls r /\ reseat_tiesb ls r = true /\ reseat_specb_ties ls r = true.
+Proof. exact reseat_ties_correct_any_order. Qed.
+Theorem C11_sort_stable : forall s l,
+  filter (fun c => snap_eq s (bs_snap c)) (sort_by bcs_lt l) = filter (fun c => snap_eq s (bs_snap c)) l.
+Proof. exact sort_by_stable. Qed.
+
+(* T3. after a tie the bpm in force is that of the LAST change of the tie group (ActiveLastP, ReseatDomain.v) *)
+Theorem C11_reseat_ties_active_last : forall l, wf_ties l = true -> reseat_guard THRESHOLD l = true ->
+  exists r, reseat l = ROk r /\ ActiveLastP l r.
+Proof. exact reseat_ties_active_last. Qed.
+
+(* T4. a seated list with ties on measure lines needs no guard: same length, same times, same bpms *)
+Theorem C11_reseat_seated_fixpoint_ties : forall l, wf_ties l = true -> seated_weak l = true ->
+  exists r, reseat l = ROk r /\ length r = length l /\
+    Forall2 (fun p q => fst p == fst q /\ bs_bpm (snd p) == bs_bpm (snd q)) (timeline 0 l) (timeline 0 r).
+Proof. exact reseat_seated_fixpoint_ties. Qed.
+
+(* T5. the oracle of the runner: sound for the whole statement on ANY output r (given only wf_ties l), and complete for
+   the structural spec; refinesb decides refines *)
+Theorem C11_reseat_tiesb_sound : forall l r, wf_ties l = true -> reseat_tiesb l r = true ->
+  reseat_strong_ties l r /\ ReseatTiesP l r.
+Proof. exact reseat_tiesb_sound. Qed.
+Theorem C11_strong_ties_accepted : forall l r, wf_ties l = true -> reseat_strong_ties l r -> Forall posc r ->
+  reseat_tiesb l r = true /\ reseat_specb_ties l r = true.
+Proof. exact strong_ties_tiesb. Qed.
+Theorem C11_refinesb_sound : forall ts us, refinesb ts us = true -> refines ts us.
+Proof. exact refinesb_sound. Qed.
+Theorem C11_refinesb_complete : forall ts us, refines ts us -> refinesb ts us = true.
+Proof. exact refinesb_complete. Qed.
+
+(* T6. from_bpm_changes_snap(init, l, reseat=True) with ties *)
+Theorem C11_from_bcs_reseat_correct_ties : forall init l, wf_ties l = true -> reseat_guard THRESHOLD l = true ->
+  exists r bcos, reseat l = ROk r /\ ReseatTiesOK l r /\ from_bcs_reseat init l = Some bcos /\
+                 Forall2 (bco_near init) bcos (timeline 0 r).
+Proof. exact from_bcs_reseat_correct_ties. Qed.
+
+(* T7. false with ties (about the ORACLE reading, not the code): "the bpm at time t" read as the bpm of the FIRST result
+   point at t (bpm_kept, part of reseat_specb) rejects a correct result; result times are not STRICTLY increasing *)
+Theorem C11_bpm_kept_first_match_refuted_ties :
+  wf_ties w_tie_seated = true /\ reseat_guard THRESHOLD w_tie_seated = true /\
+    exists r, reseat w_tie_seated = ROk r /\ bpm_kept w_tie_seated r = false /\ reseat_specb w_tie_seated r = false /\
+            reseat_tiesb w_tie_seated r = true.
+Proof. exact bpm_kept_first_match_refuted_ties. Qed.
+Theorem C11_times_strictly_incr_refuted_ties : exists r, reseat w_tie_seated = ROk r /\ ~ strictly_incr (times r).
+Proof. exact times_strictly_incr_refuted_ties. Qed.
+
 (* ------------------------------------------------------------------ non-vacuity *)
 (* half-beat grid, mixed bpm: in the domain, no extend branch, result accepted by the oracle *)
 Example C11_example_half_beat :
@@ -92,3 +171,28 @@ Example C11_example_seated :
   let l := [mkBcs 120 4 (mkSnap 0 0 4); mkBcs 175 4 (mkSnap 2 0 4)] in
   wf_unseated l = true /\ seated l = true.
 Proof. vm_compute. split; reflexivity. Qed.
+(* a tie at an OFF-LINE position, different bpms: 175 and 90 both at measure 0 beat 1.5 (750 ms).  Both are kept, on
+   measure line 1, in input order; the bpm in force from 750 ms on is 90 (the LAST of the tie), kept up to the inserted point *)
+Example C11_example_tie_off_line :
+  let l := [mkBcs 120 4 (mkSnap 0 0 4); mkBcs 175 4 (mkSnap 0 (3#2) 4); mkBcs 90 4 (mkSnap 0 (3#2) 4); mkBcs 200 4 (mkSnap 2 0 4)] in
+  wf_ties l = true /\ wf_unseated l = false /\ reseat_guard THRESHOLD l = true /\
+    match reseat l with
+  | ROk r => reseat_tiesb l r = true /\ length r = 5%nat /\
+             map (fun c => s_m (bs_snap c)) r = [0; 1; 1; 2; 3]%Z /\
+             match active_at (timeline 0 l) 750, active_at (timeline 0 r) 750 with
+             | Some p, Some q => Qeq_bool (fst p) 750 && Qeq_bool (bs_bpm (snd p)) 90 && Qeq_bool (fst q) 750 && Qeq_bool (bs_bpm (snd q)) 90
+             | _, _ => false
+             end = true
+  | _ => False
+  end.
+Proof. vm_compute. repeat split; reflexivity. Qed.
+(* a tie ON a measure line in a seated list: returned with the same times and bpms (4 points, measures 0,1,1,3) *)
+Example C11_example_tie_seated :
+  let l := w_tie_seated in
+  wf_ties l = true /\ seated_weak l = true /\ seated l = false /\
+    match reseat l with
+  | ROk r => length r = 4%nat /\ timeline_eqb (timeline 0 l) (timeline 0 r) = true /\ reseat_tiesb l r = true /\
+             match active_at (timeline 0 r) 2000 with Some q => Qeq_bool (bs_bpm (snd q)) 90 | None => false end = true
+  | _ => False
+  end.
+Proof. vm_compute. repeat split; reflexivity. Qed.
